@@ -1,7 +1,7 @@
 """C02 – block writes: case generation."""
 import random
 from vf import Case
-from gen import constants
+from gen import constants, cloops
 from props.regcommon import TYPES, SIZE, BITS, checks, hexv, pat, BOUNDS, default_for, float_classes
 
 ID = "C02"
@@ -9,7 +9,8 @@ DRIVER = "drv_regtable"
 HARNESS = "h_regtable"
 QUICK_LEVEL = "thorough"      # the larger case set costs only seconds
 THOROUGH_SEEDS = 8
-GEN = [constants.gen]
+GEN = [constants.gen, cloops.regs_gen]      # tie A: the address arithmetic of registers/core.c, translated from clang's AST
+tie_modules = cloops.regs_tie_modules
 TIE = ['Ufw.Tie.RegTable']
 EXTRA_MODULES = ['Ufw.Props.C02Iff']      # second part of the property theorems (needs lemmas built on Props/C02)
 RULE = ("small-scope table family: 1-3 areas (adjacent or separated by a hole; read-write, read-only flag, write-only flag, callback-backed, "
